@@ -93,3 +93,29 @@ writer_int!(writer_u8, u8);
 writer_int!(writer_u16, u16);
 writer_int!(writer_u32, u32);
 writer_int!(writer_u64, u64);
+
+/// block-level comments stored with an element (crate-private field `a2lcomment`):
+/// (text, is_included, line, uid, start_offset)
+pub trait VerifComments {
+    fn verif_comments(&self) -> Vec<(String, bool, u32, u32, u32)>;
+}
+macro_rules! impl_verif_comments {
+    ($($t:ident),* $(,)?) => {
+        $(impl VerifComments for crate::$t {
+            fn verif_comments(&self) -> Vec<(String, bool, u32, u32, u32)> {
+                self.a2lcomment
+                    .iter()
+                    .map(|c| (c.comment.clone(), c.is_included, c.line, c.uid, c.start_offset))
+                    .collect()
+            }
+        })*
+    };
+}
+impl_verif_comments!(
+    Annotation, ArComponent, AxisDescr, AxisPts, BitOperation, Blob, CalibrationHandle,
+    CalibrationMethod, Characteristic, CompuMethod, CompuTab, CompuVtab, CompuVtabRange, Formula,
+    Frame, Function, Group, Header, Instance, Measurement, MemoryLayout, MemorySegment, ModCommon,
+    ModPar, Module, Overwrite, Project, RecordLayout, StructureComponent, Transformer, TypedefAxis,
+    TypedefBlob, TypedefCharacteristic, TypedefMeasurement, TypedefStructure, Unit, UserRights,
+    VarCharacteristic, VarCriterion, VariantCoding,
+);
